@@ -26,7 +26,13 @@ def run_variant(prop, v, keep=False):
     try:
         dst = os.path.join(d, "repo")
         shutil.copytree(REPO, dst, ignore=shutil.ignore_patterns(".git"))
-        for e in v["edits"]:
+        if v.get("patch"):
+            pr = subprocess.run(["git", "apply", "--whitespace=nowarn", os.path.join(VERIF, v["patch"])], cwd=dst, capture_output=True, text=True)
+            if pr.returncode != 0:
+                res["status"] = "stale"
+                res["detail"] = "patch does not apply: " + pr.stderr.strip()[-200:]
+                return res
+        for e in v.get("edits", []):
             path = os.path.join(dst, e["file"])
             s = open(path).read()
             n = s.count(e["old"])
